@@ -83,14 +83,23 @@ Print Assumptions C17_no_panic_unpatched_refuted.
    blocks nil or not, requestHeaders.pass nil or not) / two at once; 0, 1 or 2 splits with
    action nil / pass / return; 0 or 1 match with 0 or 1 condition, action nil or not, 0 or 2
    splits (first action nil or not); 0 or 1 error page with return and redirect nil or not;
-   a route reference or none; or spec.tls nil / {secret, redirect nil / {code nil or not},
+   a route reference or none; or one route that only references a VirtualServerRoute, with a
+   prefix / exact / regex path; or spec.tls nil / {secret, redirect nil / {code nil or not},
    cert-manager nil or not} with spec.listener nil or not; or one upstream with healthCheck
    (tls nil or not) / sessionCookie / queue / buffers / backup+backupPort / backup only /
    backupPort only / integer pointers.  TransportServer: listener TCP / UDP / TLS passthrough,
    host, tls nil / {} / {secret}, 0 or 1 upstream with healthCheck nil / {match nil} /
    {match}, upstreamParameters nil / set / with UDP pointers, sessionParameters, action nil /
    {} / {pass}.  Policy: no, one or two sub-specs, with the optional structure of each.
-   GlobalConfiguration: 5 listener lists. *)
+   GlobalConfiguration: 5 listener lists.
+   PARTNER OBJECTS (arbitration re-validates a VirtualServerRoute against the path of the route
+   that references it, ValidateVirtualServerRouteForVirtualServer, with its [routes[0]] behind
+   [len(routes) != 1]): VirtualServer prior states: none / an older VirtualServer on the host /
+   a GlobalConfiguration / the referenced VirtualServerRoute stored with 0 subroutes, 1 subroute
+   with the referencing path, 1 subroute with another path, 2 subroutes.  VirtualServerRoute
+   shapes have 0, 1 or 2 subroutes (agreeing with the referencing path, or one with another
+   path); prior states: orphan / a VirtualServer on the host referencing the route from a
+   prefix, exact or regex path. *)
 
 Theorem C17_virtualserver_no_panic_shapes :
   forall (fl : flags) (c : vctx) (s : vs_shape),
@@ -109,6 +118,13 @@ Theorem C17_transportserver_no_panic_shapes :
     crd_worst (ts_observe (f_tlspass fl) c (ts_of s)) <> OPanic.
 Proof. exact ts_no_panic_shapes. Qed.
 Print Assumptions C17_transportserver_no_panic_shapes.
+
+(* The re-validation of a referenced VirtualServerRoute during arbitration never panics, for
+   subroute lists of any length and every kind of referencing path. *)
+Theorem C17_revalidate_subroutes_total :
+  forall k subs, exists b, revalidate_subroutes k subs = Val b.
+Proof. exact revalidate_subroutes_total. Qed.
+Print Assumptions C17_revalidate_subroutes_total.
 
 (* Refuted for the unpatched tree (finding F43): a valid TransportServer with an empty tls
    block on an active TCP listener panics in generateSSLConfig. *)
@@ -180,3 +196,13 @@ Example C17_history_nonvacuous :
   option_map (fun st => List.length (s_ings st))
     (run {| if_plus := true; if_certmgr := true |} {| s_ings := []; s_vss := [{| v_host := 1; v_created := 0 |}] |} evs) = Some 2.
 Proof. vm_compute. split; reflexivity. Qed.
+
+(* the guard [len(routes) != 1] is needed: a VirtualServerRoute without subroutes is valid
+   stand-alone, and with the guard weakened to [len(routes) > 1] its re-validation against an
+   exact or regex path panics at routes[0] *)
+Example C17_revalidation_guard_needed :
+  validate_vsr false (vsr_of VrBare) = false /\
+  revalidate_subroutes PkExact (vr_subroutes (vsr_of VrBare)) = Val true /\
+  revalidate_subroutes_weak PkExact (vr_subroutes (vsr_of VrBare)) = Pan /\
+  revalidate_subroutes_weak PkRegex (vr_subroutes (vsr_of VrBare)) = Pan.
+Proof. exact revalidation_guard_needed. Qed.
